@@ -30,6 +30,9 @@ CLAIMS = {
  "C08": dict(design="5/C08", tech=E1,
    text="Adapter stacks of depth 1..2 (ExtendedToOriginalDecorator, MultiTestResult fan-out 1/2, TestResultDecorator, Tagger) over six target flavours incl. TestByTestResult x three kinds of test object x one- and two-test histories (6 outcomes, exc_info or details, optional run boundaries/time/tags/stop/progress/done): each innermost target's startTest/outcome/stopTest sequence equals the history mapped through the documented degradation table, payload text survives, stop() reaches every target, TestByTestResult gets one callback per test with times/tags/details/status. Exhaustive within the bound.",
    note="Details of success/unexpected-success cannot be carried by old-style protocols (not demanded); progress()/done() are called best-effort."),
+ "C09": dict(design="5/C09", tech=E1 + "; symbolic chunk bytes and time tokens",
+   text="One- and two-test histories (6 outcomes, exc_info/reason/plain or details with 0..2 details x 0..3 chunks x 4 content types incl. parameterised ones, non-ASCII names and reasons, symbolic octet-stream chunk bytes, symbolic time tokens, run/test-level tags) are pushed through ExtendedToStreamDecorator and StreamToExtendedDecorator; the intermediate stream is checked for well-formedness (inprogress, chunk order, eof exactly on the last chunk, one final status with tags) and the final extended log for id, outcome, times, reason, every non-empty detail's bytes and content type. Exhaustive within the bounds.",
+   note="Text payloads concrete (decoding is C); <=2 tests, <=2 details, <=3 chunks of <=1 byte."),
  "C10": dict(design="5/C10", tech=E1 + "; symbolic chunk bytes and timestamps",
    text="Event sequences (accounting alphabet length <=4/5; other final statuses, id re-use, two routes; attachments with symbolic chunk bytes; tags with symbolic timestamps; a joint alphabet varying all groups) are fed to StreamToDict, StreamSummary and StreamToExtendedDecorator together and compared with a reference accounting model written from the statement; exhaustive within the bounds.",
    note="'fail' may land in errors or failures (exactly one entry); 'exists' through StreamToExtendedDecorator is discarded by design; payload bytes symbolic only for binary mime types."),
